@@ -167,6 +167,7 @@ _ID_PREFIX = None
                         for name, value in map.items()
                         if name != "__class__"
                     }""", "                    return mapped()", "caught"),
+        ("send-does-not-start-a-new-line", "tatsu/packetz/queue.py", 'queue.write(self._line_start() + serial + "\\n")', 'queue.write(serial + "\\n")', "caught"),
         ("NC-told-min", "tatsu/packetz/queue.py", "self._told = max(q.tell(), self._told)", "self._told = min(q.tell(), self._told)", "quiet"),
         ("no-seen-dedupe", "tatsu/packetz/queue.py", "                if packet.id not in self._seen:\n                    self._seen.add(packet.id)\n                    yield packet", "                if True:\n                    yield packet", "caught"),
         ("NC-bigger-read-buffer", "tatsu/packetz/queue.py", 'with self.path.open("rb", buffering=1024 * 256) as q:', 'with self.path.open("rb", buffering=1024 * 1024) as q:', "quiet"),
